@@ -26,8 +26,8 @@ DT = 0.25
 
 HEDGE_CFGS = {"quick": ["q_singles", "q_combos1", "q_long1", "q_combos2", "q_t2h1", "q_t2h2"],
               "thorough": ["q_singles", "q_combos1", "q_long1", "q_combos2", "q_t2h1", "q_t2h2", "t_long1", "t_combos1", "t_combos2"]}
-PAIR_CFGS = {"quick": ["q_singles", "q_combos1", "q_combos2", "q_t2h1", "q_t2h2"],
-             "thorough": ["q_singles", "q_combos1", "q_combos2", "q_t2h1", "q_t2h2", "t_singles", "t_combos1"]}
+PAIR_CFGS = {"quick": ["q_singles", "q_varsingles", "q_combos1", "q_combos2", "q_t2h1", "q_t2h2"],
+             "thorough": ["q_singles", "q_varsingles", "q_combos1", "q_combos2", "q_t2h1", "q_t2h2", "t_singles", "t_combos1"]}
 
 
 def run_hedge_models(ctx: Ctx, pairs: bool = False) -> Tuple[List[Dict[str, Any]], List[Dict[str, Any]]]:
